@@ -7,14 +7,22 @@ jobs = 4
 if args and args[0] == '-j':
     jobs = int(args[1]); args = args[2:]
 here = os.path.dirname(os.path.abspath(__file__))
+import queue
+slots = queue.Queue()
 def one(tag):
-    p = subprocess.run([sys.executable, os.path.join(here, 'altseed.py'), tag], capture_output=True, text=True)
+    slot = slots.get()
+    try:
+        p = subprocess.run([sys.executable, os.path.join(here, 'altseed.py'), tag], capture_output=True, text=True, env=dict(os.environ, ALT_SLOT=str(slot)))
+    finally:
+        slots.put(slot)
     f = '/verif/seeded/%s/meta.json' % tag
     if not os.path.exists(f):
         return '%s NOT STORED: %s' % (tag, (p.stdout + p.stderr)[-400:])
     m = json.load(open(f))
     det = {k: (v.get('exit'), [s.split('signature:')[-1].strip() for s in v.get('summary', []) if 'signature' in s][:2]) for k, v in m.get('detected', {}).items()}
     return '%s confirmed=%s %s' % (tag, m.get('confirmation', {}).get('confirmed'), det)
+for k in range(jobs):
+    slots.put(k)
 with ThreadPoolExecutor(max_workers=jobs) as ex:
     for line in ex.map(one, args):
         print(line); sys.stdout.flush()
